@@ -5,6 +5,7 @@ From SV Require Import Fmt.VpkDir Fmt.VpkDirProofs Fmt.VpkName Fmt.VpkNameSplit 
 From SV Require Import Fmt.VpkArchName Fmt.VpkArchNameProofs SM.VpkRefine Fmt.VpkDirV2.
 From SV Require Import Fmt.VpkNameJoin Fmt.VpkNameJoinProofs SM.VpkPlaceTable SM.VpkPlaceTableProofs Fmt.VpkDirProg Fmt.VpkDirProgProofs Fmt.VpkDirRead Fmt.VpkDirReadProofs SM.VpkProperty SM.VpkGenMachine SM.VpkGenMachineProofs.
 From SV Require Import Fmt.VpkNullStr Fmt.VpkNullStrProofs SM.VpkNested SM.VpkNestedProofs SM.VpkApi SM.VpkApiProofs SM.VpkNestedMap SM.VpkNestedMapProofs SM.VpkNestedSim SM.VpkNestedWf SM.VpkPlace SM.VpkPlaceProofs.
+From SV Require Import SM.VpkWriteOrder SM.VpkWriteOrderProofs SM.VpkListing SM.VpkListingProofs.
 Import ListNotations.
 Open Scope N_scope.
 
@@ -663,3 +664,138 @@ Theorem c13_generated_machine_example :
   | _, _ => false
   end = true.
 Proof. exact generated_machine_example. Qed.
+
+(** ---- round 5: error paths of FileInfo.write (SM/VpkWriteOrder.v) and the os.path.splitext split ---- *)
+
+(** [write_guarded_t] runs FileInfo.write WITH its validations from two generated tables: the placement table and the rejection table
+    (the method executed with a read-only archive / an index out of range / both, for every combination of the deciding facts: did a
+    validation raise, which one, which stores had been executed by then; a rejected call keeps exactly those stores).  For every table
+    accepted by [rej_table_ok] — every validation that can reject raises before the first store, the mode before the index, a singular
+    VPK ignores the index — it is the guard order and the result codes of the state machine, on all inputs. *)
+Theorem c13_guarded_write_is_model : forall jt pt, rej_table_ok jt = true -> place_table_ok pt = true -> forall crc cf st i d ix,
+  v_chk_idx cf = true ->
+  write_guarded_t jt pt crc cf st i d ix = Some (write_guarded_model crc cf st i d ix).
+Proof. exact write_guarded_is_model. Qed.
+
+(** A rejected write changes neither the archive nor the entry. *)
+Theorem c13_rejected_write_stores_nothing : forall jt pt, rej_table_ok jt = true -> place_table_ok pt = true ->
+  forall crc cf st i d ix st' i' c,
+  v_chk_idx cf = true -> write_guarded_t jt pt crc cf st i d ix = Some (st', i', c) -> c <> rOk -> st' = st /\ i' = i.
+Proof. exact rejected_write_stores_nothing. Qed.
+
+(** The OWrite case of [step] — where the refinement theorem uses "a rejected write changes nothing" — is the method run from the two
+    generated tables. *)
+Theorem c13_write_step_is_generated_tables : forall jt pt, rej_table_ok jt = true -> place_table_ok pt = true -> forall crc cf st k d ix,
+  v_chk_idx cf = true ->
+  step crc cf st (OWrite k d ix) =
+    match alookup k (tbl st) with
+    | None => Some (st, rMissing)
+    | Some i => match write_guarded_t jt pt crc cf st i d ix with
+                | Some (st', i', c) => Some (if c =? rOk then with_tbl st' (aset k i' (tbl st')) else st', c)
+                | None => None
+                end
+    end.
+Proof. exact step_write_is_guarded_tables. Qed.
+
+(** The pinned table is accepted; the table of seeded c13_7 (index validated after `self.crc = new_checksum`) and a table without the
+    "both wrong" rows are rejected. *)
+Theorem c13_rejection_tables_computed :
+  rej_table_ok rej_table_pinned = true /\ rej_table_ok rej_table_late_check = false
+  /\ rej_table_ok (filter (fun r => negb (kind_eqb (j_kind r) KBoth)) rej_table_pinned) = false.
+Proof. exact rej_tables_computed. Qed.
+
+(** Seeded c13_7 followed in the model, for EVERY checksum function, archive, entry and data: in a directory VPK a write of different data
+    with an index out of range is rejected, but the entry keeps the new checksum on the old data — it reads back the old bytes and
+    verify() is false — and writing the same data again with a valid index is taken for "same data" and stores nothing. *)
+Theorem c13_late_index_check_refuted : forall crc cf st i d ix ix2,
+  v_is_dir cf = true -> writable (md st) = true -> idx_ok cf ix = false -> idx_ok cf ix2 = true -> (crc d =? icrc i) = false ->
+  verify_info crc st i = true ->
+  let i' := mkInfo (crc d) (ipre i) (iidx i) (ioff i) (ilen i) in
+  write_guarded_t rej_table_late_check table_pinned crc cf st i d ix = Some (st, i', rBadIndex)
+  /\ read_info st i' = read_info st i /\ verify_info crc st i' = false
+  /\ write_guarded_t rej_table_late_check table_pinned crc cf st i' d ix2 = Some (st, i', rOk).
+Proof. exact late_check_rejected_write_breaks_verify. Qed.
+
+(** Seeded c13_8: the split statement as `os.path.splitext` ([SplitExt], meaning [splitext] = posixpath.splitext).  Not accepted by
+    [split_kind_ok]; 'a/.b' resolves to (folder a, name '.b') while the 3-tuple ('a', '', 'b') — the entry load_dirfile creates — is
+    (folder a, name '', extension b); both are listed as 'a/.b'.  With the split at the last '.' the string resolves to that entry.  A name
+    starting with '.' never loses its first character to the extension; on a name with an inner dot the two splits agree. *)
+Theorem c13_name_forms_splitext_refuted :
+  let s := [97; 47; 46; 98] in
+  split_kind_ok SplitExt = false
+  /\ file_parts_k posix_normpath SplitExt (NStr s) = ([], [97], [46; 98])
+  /\ file_parts_k posix_normpath SplitExt (NTriple [97] [] [98]) = ([98], [97], [])
+  /\ join_k join_table_pinned ([98], [97], []) = Some s
+  /\ join_k join_table_pinned ([], [97], [46; 98]) = Some s
+  /\ file_parts_k posix_normpath (SplitLast 46) (NStr s) = ([98], [97], [])
+  /\ (forall n, splitext (46 :: n) = None \/ exists a b, splitext (46 :: n) = Some (46 :: a, b))
+  /\ file_parts_k posix_normpath SplitExt (NStr [97; 47; 98; 46; 99; 46; 100]) = file_parts_k posix_normpath (SplitLast 46) (NStr [97; 47; 98; 46; 99; 46; 100]).
+Proof. exact name_forms_splitext_refuted. Qed.
+
+(** Seeded c13_6 given a meaning: [RBlockLoopRel n] = blocks of n in an inner loop, `start` taken once before the first block, then
+    `seek(start + end + 1)` with `end` found in the LAST block.  Not accepted; 127 characters are read and the file is left after the
+    terminator, with 128 characters the string is still right but the file is left at position 1, inside the string. *)
+Theorem c13_nullstr_block_rel_refuted :
+  let s127 := repeat 97 127 in let s128 := repeat 97 128 in
+  reader_ok (RBlockLoopRel 128) = false
+  /\ read_cstr_r (RBlockLoopRel 128) (s127 ++ 0 :: [7; 8]) = Some (s127, [7; 8])
+  /\ read_cstr_r (RBlockLoopRel 128) (s128 ++ 0 :: [7; 8]) = Some (s128, repeat 97 127 ++ 0 :: [7; 8])
+  /\ read_cstr_r (RBlockLoop 128) (s128 ++ 0 :: [7; 8]) = Some (s128, [7; 8]).
+Proof. exact nullstr_block_rel_refuted. Qed.
+
+(** ---- round 5: the listing methods called with arguments (SM/VpkListing.v) ---- *)
+
+(** [list_walk w ext folder t] is what `filenames(ext, folder)` / `fileinfos(ext=, folder=)` yield on the nested dicts [t] when the method,
+    executed with that combination of arguments, performs the walk [w] (translate/c13_api.py: which extension dicts, which folders).  For
+    every accepted description and dicts without duplicate extension keys it is, in the same order, the entries of the default walk
+    ([flat_tree]: the table of the state machine by c13_nested_walk_is_table) with that extension (when one is given) whose folder name
+    starts with the folder argument (when one is given). *)
+Theorem c13_listing_with_arguments_is_filter : forall eg fg w, walk_ok eg fg w = true -> forall ext folder t, NoDup (map fst t) ->
+  list_walk w ext folder t = filter (listed eg fg ext folder) (flat_tree t).
+Proof. exact list_walk_is_filter. Qed.
+
+Theorem c13_listing_tables_list_matching : forall ws, walks_ok ws = true -> forall eg fg w, In (eg, fg, w) ws ->
+  forall ext folder t, NoDup (map fst t) ->
+  list_walk w ext folder t = filter (listed eg fg ext folder) (flat_tree t).
+Proof. exact walks_ok_lists_matching. Qed.
+
+(** The pinned walks are accepted; an inverted folder test (R7 of round 3) and a walk that ignores the extension argument are not. *)
+Theorem c13_listing_walks_computed :
+  walks_ok walks_pinned = true /\ walks_ok walks_inverted_filter = false
+  /\ walks_ok (map (fun x : bool * bool * lwalk => let '(eg, fg, w) := x in (eg, fg, mkWalk EAll (lw_dir w) true)) walks_pinned) = false.
+Proof. exact walks_computed. Qed.
+
+(** extract_all: for a description accepted as the full walk, exactly one file per entry of the default walk, named by the entry's listed
+    name (the translated _join_file_parts table) and holding what read() — run from the read table — returns. *)
+Theorem c13_extract_all_writes_every_file : forall (jt : list jrow) (rt : list rrow) (st : vstate) w,
+  walk_ok false false w = true -> forall t, NoDup (map fst t) ->
+  extract_files w (join_k jt) (read_info_t rt st) t = map (fun e => (join_k jt (fst e), read_info_t rt st (snd e))) (flat_tree t).
+Proof. exact (fun jt rt st w => extract_all_writes_every_file w (join_k jt) (read_info_t rt st)). Qed.
+
+(** ---- round 5: the additions to the whole property as one statement (SM/VpkProperty.v) ---- *)
+
+(** [c13_hyps_r5] = the hypotheses of [c13_property] and three more generated objects: the rejection table of FileInfo.write and the
+    walks of `filenames` / `fileinfos` under their arguments.  Then [c13_property] applies (first conjunct) and: the write step of the
+    state machine is the method run from the generated tables, validations included; a rejected write stores nothing; the listing methods
+    called with arguments list exactly the matching entries of the default walk. *)
+Theorem c13_property_r5 : forall et cf pt rt g1 g2 prog nk wp rp sk gp jt nc rj wn wi,
+  c13_hyps_r5 et cf pt rt g1 g2 prog nk wp rp sk gp jt nc rj wn wi = true -> forall (crc : bytes -> N),
+  c13_hyps et cf pt rt g1 g2 prog nk wp rp sk gp jt nc = true
+  /\ (forall st k d ix,
+        step crc cf st (OWrite k d ix) =
+          match alookup k (tbl st) with
+          | None => Some (st, rMissing)
+          | Some i => match write_guarded_t rj pt crc cf st i d ix with
+                      | Some (st', i', c) => Some (if c =? rOk then with_tbl st' (aset k i' (tbl st')) else st', c)
+                      | None => None
+                      end
+          end)
+  /\ (forall st i d ix st' i' c, write_guarded_t rj pt crc cf st i d ix = Some (st', i', c) -> c <> rOk -> st' = st /\ i' = i)
+  /\ (forall eg fg w, In (eg, fg, w) (wn ++ wi) -> forall ext folder t, NoDup (map fst t) ->
+        list_walk w ext folder t = filter (listed eg fg ext folder) (flat_tree t)).
+Proof. exact c13_property_r5_composed. Qed.
+
+Theorem c13_property_r5_hypotheses_satisfiable :
+  c13_hyps_r5 exit_table_pinned ex_cfg table_pinned rtable_pinned goc_pinned goc_pinned del_prog_pinned ncodec_pinned wprog_pinned rprog_pinned
+           (SplitLast 46) gparts_pinned join_table_pinned (ex_ncfg (n_writer (ex_ncfg reader_rstrip))) rej_table_pinned walks_pinned walks_pinned = true.
+Proof. exact c13_hyps_r5_pinned. Qed.
